@@ -156,7 +156,7 @@ MUTANTS = [
     ("C17", "smoothing-sign", "typhon/retrieval/oem/error.py", "    return A @ (x - x_a)", "    return A @ (x_a - x)"),
     ("C18", "window-without-rounding-slack", "typhon/retrieval/bmci/bmci.py", "        slack = 1e-12 * (1.0 + np.abs(dy).sum())", "        slack = 0.0"),
     ("C18", "inverse-ignores-correlations", "typhon/retrieval/bmci/bmci.py", "        self.s_o_inv = np.linalg.inv(self.s_o)", "        self.s_o_inv = np.diag(1.0 / np.diag(self.s_o))"),
-    ("C18", "window-half-width-misparenthesised", "typhon/retrieval/bmci/bmci.py", "        s_l = y_proj - np.sqrt(2.0 * x2_max / self.pc1_e)\n        s_u = y_proj + np.sqrt(2.0 * x2_max / self.pc1_e)", "        s_l = y_proj - np.sqrt(2.0 * x2_max) / self.pc1_e\n        s_u = y_proj + np.sqrt(2.0 * x2_max) / self.pc1_e"),
+    ("C18", "window-half-width-misparenthesised", "typhon/retrieval/bmci/bmci.py", "        s_l = y_proj - np.sqrt(2.0 * x2_max / self.pc1_e) - slack\n        s_u = y_proj + np.sqrt(2.0 * x2_max / self.pc1_e) + slack", "        s_l = y_proj - np.sqrt(2.0 * x2_max) / self.pc1_e - slack\n        s_u = y_proj + np.sqrt(2.0 * x2_max) / self.pc1_e + slack"),
     ("C18", "window-slice-from-zero", "typhon/retrieval/bmci/bmci.py", "                xs[i] = np.sum(self.x[i_l:i_u].ravel() * ws.ravel() / c)", "                xs[i] = np.sum(self.x[:i_u - i_l].ravel() * ws.ravel() / c)"),
     ("C18", "np-float-nan", "typhon/retrieval/bmci/bmci.py", "                xs[i] = float(\"nan\")", "                xs[i] = np.float(\"nan\")"),
     ("C18", "x-not-sorted-with-y", "typhon/retrieval/bmci/bmci.py", "        self.x = x[indices]", "        self.x = x"),
